@@ -2266,6 +2266,7 @@ fn deep_case(ctx: &mut Ctx, ty: &Ty, v: &V) {
 }
 
 pub fn run(ctx: &mut Ctx) {
+    any_cases(ctx);
     witnesses(ctx);
     wide_cases(ctx);
     deep_cases(ctx);
@@ -2280,6 +2281,7 @@ pub fn run(ctx: &mut Ctx) {
             if let Ok(t) = erltf_serde::to_term(&v) {
                 let res = dyn_from_term(&ty2, &t);
                 ctx.tie("cross", &format!("c15de {} {}", ty_text(&ty2), term_text(&t)), &res);
+                ctx.prop("shape", &format!("c15shape {} {} {}", ty_text(&ty2), term_text(&t), bare(&res)), "ok");
             }
         }
         if ctx.rng.chance(1, 4) {
@@ -2287,6 +2289,7 @@ pub fn run(ctx: &mut Ctx) {
             let t = crate::tgen::gen_term(&mut ctx.rng, &cfg, 0);
             let res = dyn_from_term(&ty, &t);
             ctx.tie("anyterm", &format!("c15de {} {}", ty_text(&ty), term_text(&t)), &res);
+            ctx.prop("shape", &format!("c15shape {} {} {}", ty_text(&ty), term_text(&t), bare(&res)), "ok");
             if let Ty::Int(k) = &ty {
                 ctx.prop("int-read", &format!("c15int {} {} {}", k.text(), term_text(&t), bare(&res)), "ok");
             }
@@ -2294,4 +2297,310 @@ pub fn run(ctx: &mut Ctx) {
     }
     let n = ctx.n(25, 150);
     run_concrete(ctx, n);
+}
+
+// ---------------------------------------------------------------------------------------------------------------------
+// `deserialize_any` (de.rs): the self-describing entry point that serde's buffered representations use — untagged,
+// internally and adjacently tagged enums, `#[serde(flatten)]`. `Cn` is what a visitor that accepts everything is shown
+// (the shape of serde's private `Content` / of `serde_json::Value`); tied to `Edp.Serde.content` (Impl/SerdeAny.lean).
+// ---------------------------------------------------------------------------------------------------------------------
+#[derive(Debug, Clone, PartialEq)]
+enum Cn {
+    Bool(bool),
+    I64(i64),
+    U64(u64),
+    F64(u64),
+    Str(Vec<u8>),
+    Bytes(Vec<u8>),
+    Unit,
+    None,
+    Seq(Vec<Cn>),
+    Map(Vec<(Cn, Cn)>),
+}
+
+struct CnVis;
+impl<'de> Visitor<'de> for CnVis {
+    type Value = Cn;
+    fn expecting(&self, f: &mut fmt::Formatter) -> fmt::Result {
+        f.write_str("anything")
+    }
+    fn visit_bool<E: de::Error>(self, v: bool) -> Result<Cn, E> {
+        Ok(Cn::Bool(v))
+    }
+    fn visit_i64<E: de::Error>(self, v: i64) -> Result<Cn, E> {
+        Ok(Cn::I64(v))
+    }
+    fn visit_u64<E: de::Error>(self, v: u64) -> Result<Cn, E> {
+        Ok(Cn::U64(v))
+    }
+    fn visit_f64<E: de::Error>(self, v: f64) -> Result<Cn, E> {
+        Ok(Cn::F64(v.to_bits()))
+    }
+    fn visit_str<E: de::Error>(self, v: &str) -> Result<Cn, E> {
+        Ok(Cn::Str(v.as_bytes().to_vec()))
+    }
+    fn visit_bytes<E: de::Error>(self, v: &[u8]) -> Result<Cn, E> {
+        Ok(Cn::Bytes(v.to_vec()))
+    }
+    fn visit_unit<E: de::Error>(self) -> Result<Cn, E> {
+        Ok(Cn::Unit)
+    }
+    fn visit_none<E: de::Error>(self) -> Result<Cn, E> {
+        Ok(Cn::None)
+    }
+    fn visit_seq<A: SeqAccess<'de>>(self, mut seq: A) -> Result<Cn, A::Error> {
+        let mut v = vec![];
+        while let Some(x) = seq.next_element::<Cn>()? {
+            v.push(x);
+        }
+        Ok(Cn::Seq(v))
+    }
+    fn visit_map<A: MapAccess<'de>>(self, mut map: A) -> Result<Cn, A::Error> {
+        let mut v = vec![];
+        while let Some(k) = map.next_key::<Cn>()? {
+            let x = map.next_value::<Cn>()?;
+            v.push((k, x));
+        }
+        Ok(Cn::Map(v))
+    }
+}
+impl<'de> Deserialize<'de> for Cn {
+    fn deserialize<D: de::Deserializer<'de>>(d: D) -> Result<Cn, D::Error> {
+        d.deserialize_any(CnVis)
+    }
+}
+
+fn cn_text(c: &Cn) -> String {
+    match c {
+        Cn::Bool(b) => format!("b{}", *b as u8),
+        Cn::I64(i) => format!("i{}", i),
+        Cn::U64(u) => format!("u{}", u),
+        Cn::F64(b) => format!("f{:016x}", b),
+        Cn::Str(s) => format!("s{}", hx_b(s)),
+        Cn::Bytes(s) => format!("y{}", hx_b(s)),
+        Cn::Unit => "unit".into(),
+        Cn::None => "none".into(),
+        Cn::Seq(v) => format!("q[{}]", v.iter().map(cn_text).collect::<Vec<_>>().join(",")),
+        Cn::Map(v) => format!("m[{}]", v.iter().map(|(k, x)| format!("{}={}", cn_text(k), cn_text(x))).collect::<Vec<_>>().join(",")),
+    }
+}
+fn hx_b(b: &[u8]) -> String {
+    if b.is_empty() { "-".into() } else { hex(b) }
+}
+
+fn any_term(ctx: &mut Ctx, tag: &str, t: &OwnedTerm) {
+    let r = std::panic::catch_unwind(std::panic::AssertUnwindSafe(|| erltf_serde::from_term::<Cn>(t)));
+    let res = match r {
+        Err(_) => "panic".to_string(),
+        Ok(Err(_)) => "err".to_string(),
+        Ok(Ok(c)) => format!("ok {}", cn_text(&c)),
+    };
+    ctx.count(&format!("any_{}", res.split(' ').next().unwrap()));
+    ctx.tie(tag, &format!("c15any {}", term_text(t)), &res);
+}
+
+// real derived types with the representations that go through `deserialize_any`
+#[derive(Serialize, Deserialize, PartialEq, Debug, Clone)]
+#[serde(untagged)]
+enum Un {
+    Pt { x: i32, y: i32 },
+    N(u64),
+    I(i64),
+    F(f64),
+    S(String),
+    L(Vec<i64>),
+    O(Option<bool>),
+}
+#[derive(Serialize, Deserialize, PartialEq, Debug, Clone)]
+#[serde(tag = "t")]
+enum It {
+    A { x: i64, u: u64 },
+    B { s: String, o: Option<i32>, z: () },
+    C,
+}
+#[derive(Serialize, Deserialize, PartialEq, Debug, Clone)]
+#[serde(tag = "t", content = "c")]
+enum Ad {
+    A(u64),
+    B(i64, String),
+    C,
+    D { w: u32, v: Vec<u16> },
+}
+#[derive(Serialize, Deserialize, PartialEq, Debug, Clone)]
+struct FlInner {
+    a: i64,
+    b: Option<String>,
+    w: u64,
+    z: (),
+}
+#[derive(Serialize, Deserialize, PartialEq, Debug, Clone)]
+struct Fl {
+    id: u32,
+    #[serde(flatten)]
+    rest: FlInner,
+    #[serde(flatten)]
+    more: BTreeMap<String, i64>,
+}
+#[derive(Serialize, Deserialize, PartialEq, Debug, Clone)]
+struct Misc2 {
+    cow: std::borrow::Cow<'static, str>,
+    bx: Box<(i64, Box<Option<u64>>)>,
+    t12: (u8, i8, u16, i16, u32, i32, u64, i64, bool, char, f32, f64),
+    t0: (),
+    t1: (i64,),
+    arr: [u8; 3],
+    m1: HashMap<u64, i8>,
+    m2: BTreeMap<String, Option<Vec<u8>>>,
+    m3: BTreeMap<i64, Vec<(u64, String)>>,
+    e: Vec<UnitsOnly>,
+}
+#[derive(Serialize, Deserialize, PartialEq, Debug, Clone, Copy)]
+enum UnitsOnly {
+    Alpha,
+    #[serde(rename = "beta-β")]
+    Beta,
+    Gamma,
+}
+
+fn attr_rt<T: Serialize + for<'a> Deserialize<'a> + PartialEq + fmt::Debug>(ctx: &mut Ctx, kind: &str, x: &T) {
+    ctx.count(&format!("attr_{}", kind));
+    let shown = format!("{:?}", x);
+    let shown: String = shown.chars().take(160).collect();
+    match erltf_serde::to_term(x) {
+        Err(_) => ctx.fail("c15-attr-roundtrip", &format!("{} to_term fails for {}", kind, shown)),
+        Ok(t) => {
+            any_term(ctx, "any-attr", &t);
+            match std::panic::catch_unwind(std::panic::AssertUnwindSafe(|| erltf_serde::from_term::<T>(&t))) {
+                Ok(Ok(y)) if &y == x => {}
+                Ok(Ok(y)) => ctx.fail("c15-attr-roundtrip", &format!("{} memory: {} came back as {:?} (term {})", kind, shown, y, term_text(&t))),
+                Ok(Err(_)) => ctx.fail("c15-attr-roundtrip", &format!("{} memory: {} is an error (term {})", kind, shown, term_text(&t))),
+                Err(_) => ctx.fail("c15-attr-roundtrip", &format!("{} memory: {} panics", kind, shown)),
+            }
+        }
+    }
+    match erltf_serde::to_bytes(x) {
+        Err(_) => ctx.fail("c15-attr-roundtrip", &format!("{} to_bytes fails for {}", kind, shown)),
+        Ok(b) => {
+            if let Ok(t) = erltf::decode(&b) {
+                any_term(ctx, "any-attr-wire", &t);
+            }
+            match std::panic::catch_unwind(std::panic::AssertUnwindSafe(|| erltf_serde::from_bytes::<T>(&b))) {
+                Ok(Ok(y)) if &y == x => {}
+                Ok(Ok(y)) => ctx.fail("c15-attr-roundtrip", &format!("{} wire: {} came back as {:?} (bytes {})", kind, shown, y, hex(&b))),
+                Ok(Err(_)) => ctx.fail("c15-attr-roundtrip", &format!("{} wire: {} is an error (bytes {})", kind, shown, hex(&b))),
+                Err(_) => ctx.fail("c15-attr-roundtrip", &format!("{} wire: {} panics", kind, shown)),
+            }
+        }
+    }
+}
+
+fn edge_i64(r: &mut Rng) -> i64 {
+    let p = *r.pick(&[0u32, 7, 8, 15, 16, 27, 31, 32, 40, 53, 62, 63]);
+    let base: i128 = 1i128 << p;
+    let v = base + (r.below(3) as i128 - 1);
+    let v = if r.chance(1, 2) { -v } else { v };
+    v.clamp(i64::MIN as i128, i64::MAX as i128) as i64
+}
+fn edge_u64(r: &mut Rng) -> u64 {
+    let p = *r.pick(&[0u32, 8, 16, 31, 32, 40, 53, 62, 63, 64]);
+    if p == 64 { u64::MAX - r.below(2) } else { (1u64 << p).wrapping_add(r.below(3)).wrapping_sub(1) }
+}
+
+fn any_cases(ctx: &mut Ctx) {
+    // every term variant, the special atoms, both integer representations
+    let big = |neg: bool, d: &[u8]| OwnedTerm::BigInt(BigInt::new(neg, d.to_vec()));
+    let edge: Vec<OwnedTerm> = vec![
+        OwnedTerm::Atom(Atom::new("true")), OwnedTerm::Atom(Atom::new("false")), OwnedTerm::Atom(Atom::new("nil")),
+        OwnedTerm::Atom(Atom::new("undefined")), OwnedTerm::Atom(Atom::new("ok")), OwnedTerm::Atom(Atom::new("")),
+        OwnedTerm::Integer(0), OwnedTerm::Integer(i64::MIN), OwnedTerm::Integer(i64::MAX), OwnedTerm::Integer(-1),
+        big(false, &[0, 0, 0, 0, 0, 0, 0, 0x80]), big(true, &[0, 0, 0, 0, 0, 0, 0, 0x80]), big(true, &[1, 0, 0, 0, 0, 0, 0, 0x80]),
+        big(false, &[0xff; 8]), big(true, &[0xff; 8]), big(false, &[0, 0, 0, 0, 0, 0, 0, 0, 1]), big(false, &[5, 0, 0, 0, 0, 0, 0, 0, 0, 0]),
+        big(false, &[]), big(true, &[]), big(true, &[0]), big(false, &[0, 0, 0, 0, 1]), big(true, &[0, 0, 0, 0x80]),
+        OwnedTerm::Float(0.0), OwnedTerm::Float(-0.0), OwnedTerm::Float(f64::NAN), OwnedTerm::Float(f64::INFINITY),
+        OwnedTerm::Binary(vec![]), OwnedTerm::Binary(b"abc".to_vec()), OwnedTerm::Binary(vec![0xff, 0xfe]), OwnedTerm::Binary("é€".as_bytes().to_vec()),
+        OwnedTerm::String("".into()), OwnedTerm::String("true".into()), OwnedTerm::Nil, OwnedTerm::List(vec![]),
+        OwnedTerm::List(vec![OwnedTerm::Integer(1), OwnedTerm::Nil]), OwnedTerm::Tuple(vec![]), OwnedTerm::Tuple(vec![OwnedTerm::Atom(Atom::new("nil"))]),
+        OwnedTerm::ImproperList { elements: vec![OwnedTerm::Integer(1)], tail: Box::new(OwnedTerm::Integer(2)) },
+        OwnedTerm::List(vec![big(false, &[0xff; 8]), OwnedTerm::Binary(vec![0xff])]),
+        OwnedTerm::Map([(OwnedTerm::Atom(Atom::new("true")), OwnedTerm::Integer(1)), (big(false, &[0, 0, 0, 0, 0, 0, 0, 0x80]), OwnedTerm::Nil)].into_iter().collect()),
+    ];
+    for t in &edge {
+        any_term(ctx, "any-edge", t);
+    }
+    // what the serialiser builds for values of the universe, as built and as it comes back from the wire; arbitrary terms
+    for _ in 0..ctx.n(250, 1500) {
+        let ty = gen_ty(&mut ctx.rng, 0);
+        let v = gen_val(&mut ctx.rng, &ty, 0);
+        if let Ok(t) = erltf_serde::to_term(&v) {
+            any_term(ctx, "any-ser", &t);
+        }
+        if let Ok(b) = erltf_serde::to_bytes(&v) {
+            if let Ok(t) = erltf::decode(&b) {
+                any_term(ctx, "any-wire", &t);
+            }
+        }
+        if ctx.rng.chance(1, 3) {
+            let cfg = crate::tgen::Cfg { max_depth: 2, huge: false, ..Default::default() };
+            let t = crate::tgen::gen_term(&mut ctx.rng, &cfg, 0);
+            any_term(ctx, "any-arbitrary", &t);
+        }
+    }
+    // derived types whose Deserialize goes through deserialize_any, integers at every boundary
+    for _ in 0..ctx.n(60, 400) {
+        let un = { let r = &mut ctx.rng; match r.below(7) {
+            0 => Un::Pt { x: edge_i64(r) as i32, y: -1 },
+            1 => Un::N(edge_u64(r)),
+            2 => Un::I({ let v = edge_i64(r); if v > 0 { -v } else if v == 0 { -1 } else { v } }),
+            3 => Un::F(f64::from_bits(gen_f64(r)).max(0.5) + 0.25),
+            4 => Un::S(gen_string(r)),
+            5 => Un::L((0..r.below(4)).map(|_| edge_i64(r)).collect()),
+            _ => Un::O(if r.chance(1, 2) { None } else { Some(r.chance(1, 2)) }),
+        } };
+        // an untagged value is read back as the FIRST variant that accepts it: keep the ones that name themselves
+        let un = match un {
+            Un::I(i) if i >= 0 => Un::N(i as u64),
+            Un::F(f) if f.is_nan() => Un::F(1.5),
+            Un::O(None) => Un::O(Some(true)),
+            Un::S(s) if ["true", "false", "nil", "undefined"].contains(&s.as_str()) => Un::S("x".into()),
+            other => other,
+        };
+        attr_rt(ctx, "untagged", &un);
+        let it = { let r = &mut ctx.rng; match r.below(3) {
+            0 => It::A { x: edge_i64(r), u: edge_u64(r) },
+            1 => It::B { s: gen_string(r), o: if r.chance(1, 2) { None } else { Some(edge_i64(r) as i32) }, z: () },
+            _ => It::C,
+        } };
+        attr_rt(ctx, "internally_tagged", &it);
+        let ad = { let r = &mut ctx.rng; match r.below(4) {
+            0 => Ad::A(edge_u64(r)),
+            1 => Ad::B(edge_i64(r), gen_string(r)),
+            2 => Ad::C,
+            _ => Ad::D { w: edge_u64(r) as u32, v: (0..r.below(3)).map(|_| edge_u64(r) as u16).collect() },
+        } };
+        attr_rt(ctx, "adjacently_tagged", &ad);
+        let r = &mut ctx.rng;
+        let fl = Fl {
+            id: edge_u64(r) as u32,
+            rest: FlInner { a: edge_i64(r), b: if r.chance(1, 2) { None } else { Some(gen_string(r)) }, w: edge_u64(r), z: () },
+            more: (0..r.below(3)).map(|k| (format!("k{}", k), edge_i64(r))).collect(),
+        };
+        attr_rt(ctx, "flatten", &fl);
+        let r = &mut ctx.rng;
+        let m = Misc2 {
+            cow: std::borrow::Cow::Owned(gen_string(r)),
+            bx: Box::new((edge_i64(r), Box::new(if r.chance(1, 3) { None } else { Some(edge_u64(r)) }))),
+            t12: (edge_u64(r) as u8, edge_i64(r) as i8, edge_u64(r) as u16, edge_i64(r) as i16, edge_u64(r) as u32, edge_i64(r) as i32,
+                  edge_u64(r), edge_i64(r), r.chance(1, 2), gen_char(r), 1.5, f64::from_bits(gen_f64(r))),
+            t0: (),
+            t1: (edge_i64(r),),
+            arr: [r.next() as u8, 0, 255],
+            m1: (0..r.below(3)).map(|_| (edge_u64(r), edge_i64(r) as i8)).collect(),
+            m2: (0..r.below(3)).map(|k| (format!("k{}", k), if r.chance(1, 3) { None } else { Some(r.bytes(k as usize)) })).collect(),
+            m3: (0..r.below(3)).map(|_| (edge_i64(r), vec![(edge_u64(r), gen_string(r))])).collect(),
+            e: (0..r.below(4)).map(|_| *r.pick(&[UnitsOnly::Alpha, UnitsOnly::Beta, UnitsOnly::Gamma])).collect(),
+        };
+        if !m.t12.11.is_nan() {
+            attr_rt(ctx, "std_types", &m);
+        }
+    }
 }
